@@ -45,10 +45,10 @@ type c19Case struct {
 }
 
 type c19Facts struct {
-	parseOK  bool
-	failed   bool // some document fails to decode or evaluate
-	results  []*val.V
-	leaves   []string
+	parseOK   bool
+	failed    bool // some document fails to decode or evaluate
+	results   []*val.V
+	leaves    []string
 	anyTruthy bool
 }
 
